@@ -409,7 +409,7 @@ class Cid(object):
         self._location.set_cell(4)
         field_length = field_format.length
         if self._data_format.format == data.FORMAT_FIXED:
-            if field_length.items is None:
+            if not field_length.items:
                 raise errors.InterfaceError(
                     "length of field %s must be specified with fixed data format" % _compat.text_repr(field_name),
                     self._location,
